@@ -53,7 +53,7 @@ Proof. intros H. unfold dget, dset. cbn. rewrite (lookup_update_other nm nm' _ H
 (** the dictionary a bookkeeping function writes *)
 Definition writes (g : agg) : option Z :=
   match g with
-  | Tally i => Some (100 + Z.of_nat i) | First nm _ | Every nm _ _ | Subtotal nm _ _ | AssignK nm _ _ => Some nm
+  | Tally i | TallyS i => Some (100 + Z.of_nat i) | TallyC _ _ => Some 99 | First nm _ | Every nm _ _ | Subtotal nm _ _ | AssignK nm _ _ => Some nm
   | Counter _ _ | Sum _ _ => None
   end.
 Definition comp_agg (c : comp) : option agg := match c with CAgg g | CAct (Agg g) | CWhen _ (Agg g) => Some g | _ => None end.
@@ -89,7 +89,7 @@ Section Agg.
   Lemma do_agg_keeps_first s l g nm key z : (match g with First _ _ => True | _ => writes g <> Some nm end) ->
     dget (x mx s) nm key = Some (VI z) -> dget (x mx (fst (do_agg blanks AND s l g))) nm key = Some (VI z).
   Proof.
-    intros Hw H. destruct g as [i|nm' i|nm' i n|nm' k|nm' e|nm' i e|nm' key' e]; cbn [do_agg writes] in *.
+    intros Hw H. destruct g as [i|nm' i|nm' i n|nm' k|nm' e|nm' i e|nm' key' e|i|i j]; cbn [do_agg writes] in *.
     - cbn [fst x with_mx]. rewrite dget_dset_other_dict; [exact H|]. intros E. apply Hw. rewrite E. reflexivity.
     - destruct (Z.eq_dec nm' nm) as [->|Hn].
       + destruct (dget (x mx s) nm (hdr_key l i)) as [[z'|z'|t|]|] eqn:E; cbn [fst x with_mx]; try exact H.
@@ -100,6 +100,8 @@ Section Agg.
     - cbn [fst x with_mx]. exact H.
     - cbn [fst x with_mx]. exact H.
     - cbn [fst x with_mx]. rewrite dget_dset_other_dict; [exact H|]. intros E. apply Hw. rewrite E. reflexivity.
+    - cbn [fst x with_mx]. rewrite dget_dset_other_dict; [exact H|]. intros E. apply Hw. rewrite E. reflexivity.
+    - destruct (is_blank_text (tally_text l i)); cbn [fst x with_mx]; [exact H|]. rewrite dget_dset_other_dict; [exact H|]. intros E. apply Hw. rewrite E. reflexivity.
     - cbn [fst x with_mx]. rewrite dget_dset_other_dict; [exact H|]. intros E. apply Hw. rewrite E. reflexivity.
   Qed.
 
